@@ -532,6 +532,10 @@ func runFrame(fr *frame) {
 			}
 			panic(r)
 		}
+		if tp, ok := r.(targetPanic); ok && tp.runtime && !strings.Contains(tp.msg, " @ ") {
+			tp.msg += " @ " + fr.i.posOf(fr.curInstr) + " in " + fr.fn.String()
+			r = tp
+		}
 		fr.panicking = true
 		fr.panic = r
 		if fr.i.trace {
